@@ -49,18 +49,76 @@ Proof.
 Qed.
 Lemma safe_tick cur t : safe (snd (tick_prog c cur t)) = true.
 Proof.
-  destruct t as [en au te|]; cbn [tick_prog].
+  destruct t as [en au te| |b]; cbn [tick_prog].
   - destruct cur as [m|].
     + destruct (stays m en au te); cbn [snd]; [apply safe_iteration|].
       rewrite safe_pseq. cbn [forallb]. rewrite safe_leave, safe_enter, safe_iteration. reflexivity.
     + cbn [snd]. rewrite safe_pseq. cbn [forallb]. rewrite safe_enter, safe_iteration. reflexivity.
   - destruct cur; cbn [snd]; [apply safe_leave | reflexivity].
+  - reflexivity.
 Qed.
 Lemma safe_ticks ts : forall cur, safe (ticks_prog c cur ts) = true.
 Proof.
   induction ts as [|t r IH]; intros cur; cbn [ticks_prog]; [reflexivity|].
   pose proof (safe_tick cur t) as H. destruct (tick_prog c cur t) as [cur' p]. cbn [snd] in H.
-  destruct t; [cbn [safe]; rewrite H, IH; reflexivity | exact H].
+  destruct t; [cbn [safe]; rewrite H, IH; reflexivity | exact H | cbn [safe]; rewrite H, IH; reflexivity].
+Qed.
+
+(* the mode programs contain no environment step; a tick list changes the FMS state only
+   through its Fms ticks *)
+Lemma no_env_on_enable : no_env (on_mode_enable_components c) = true.
+Proof. apply no_env_for_components. intros i. apply no_env_pwhen. reflexivity. Qed.
+Lemma no_env_on_disable : no_env (on_mode_disable_components c) = true.
+Proof. apply no_env_for_components. intros i. apply no_env_pwhen. reflexivity. Qed.
+Lemma no_env_do_periodics : no_env (do_periodics c) = true.
+Proof.
+  unfold do_periodics. cbn [no_env]. rewrite no_env_pseq.
+  replace (forallb no_env (map PFeedback (seq 0 (nfb c)))) with true; [reflexivity|].
+  symmetry. apply forallb_forall. intros p H. apply in_map_iff in H. destruct H as (j & <- & _). reflexivity.
+Qed.
+Lemma no_env_enabled_periodic : no_env (enabled_periodic c) = true.
+Proof.
+  unfold enabled_periodic. rewrite no_env_pseq. cbn [forallb].
+  rewrite no_env_for_components by (intros i; reflexivity). rewrite no_env_do_periodics. reflexivity.
+Qed.
+Lemma no_env_enter m : no_env (enter c m) = true.
+Proof.
+  destruct m; unfold enter, put_mode; rewrite no_env_pseq; cbn [forallb no_env];
+    rewrite ?no_env_on_enable, ?no_env_on_disable; try reflexivity.
+  rewrite no_env_pwhen by reflexivity. reflexivity.
+Qed.
+Lemma no_env_iteration m : no_env (iteration c m) = true.
+Proof.
+  destruct m; unfold iteration; rewrite no_env_pseq; cbn [forallb no_env];
+    rewrite ?no_env_do_periodics, ?no_env_enabled_periodic; try reflexivity.
+  rewrite !no_env_pwhen by reflexivity. reflexivity.
+Qed.
+Lemma no_env_leave m : no_env (leave c m) = true.
+Proof.
+  destruct m; unfold leave; try reflexivity; try apply no_env_on_disable.
+  rewrite no_env_pseq. cbn [forallb]. rewrite no_env_on_disable, no_env_pwhen by reflexivity. reflexivity.
+Qed.
+Lemma no_env_startup : no_env (startup c) = true.
+Proof. apply no_env_for_components. intros i. apply no_env_pwhen. reflexivity. Qed.
+
+Definition fms_ticks_stay (v : bool) (ts : list tick) : bool :=
+  forallb (fun t => match t with Fms b => Bool.eqb b v | _ => true end) ts.
+
+Lemma fms_stays_tick v cur t : match t with Fms b => Bool.eqb b v | _ => true end = true ->
+  fms_stays v (snd (tick_prog c cur t)) = true.
+Proof.
+  destruct t as [en au te| |b]; cbn [tick_prog]; intros H.
+  - destruct cur as [m|]; [destruct (stays m en au te)|]; cbn [snd]; apply no_env_stays;
+      rewrite ?no_env_pseq; cbn [forallb]; rewrite ?no_env_leave, ?no_env_enter, ?no_env_iteration; reflexivity.
+  - destruct cur; cbn [snd]; [apply no_env_stays, no_env_leave | reflexivity].
+  - cbn. exact H.
+Qed.
+Lemma fms_stays_ticks v ts : forall cur, fms_ticks_stay v ts = true -> fms_stays v (ticks_prog c cur ts) = true.
+Proof.
+  induction ts as [|t r IH]; intros cur H; cbn [ticks_prog]; [reflexivity|].
+  cbn [fms_ticks_stay forallb] in H. apply andb_true_iff in H. destruct H as [Ht Hr].
+  pose proof (fms_stays_tick v cur t Ht) as H1. destruct (tick_prog c cur t) as [cur' p]. cbn [snd] in H1.
+  destruct t; [cbn [fms_stays]; rewrite H1, IH; auto | exact H1 | cbn [fms_stays]; rewrite H1, IH; auto].
 Qed.
 
 (* ------------------------------------------------------------------ *)
@@ -128,7 +186,7 @@ Lemma tick_prog_sites cur t :
   fst (tick_prog c cur t) = fst (tick_sites c cur t) /\
   psites (snd (tick_prog c cur t)) = snd (tick_sites c cur t).
 Proof.
-  destruct t as [en au te|]; cbn [tick_prog tick_sites].
+  destruct t as [en au te| |fb]; cbn [tick_prog tick_sites].
   - destruct cur as [m|].
     + destruct (stays m en au te); cbn [fst snd]; [split; [reflexivity | apply psites_iteration]|].
       split; [reflexivity|]. rewrite psites_pseq. cbn [map concat].
@@ -136,6 +194,7 @@ Proof.
     + cbn [fst snd]. split; [reflexivity|]. rewrite psites_pseq. cbn [map concat].
       rewrite psites_enter, psites_iteration, app_nil_r. reflexivity.
   - destruct cur; cbn [fst snd]; split; try reflexivity. apply psites_leave.
+  - cbn [fst snd]. split; reflexivity.
 Qed.
 
 Lemma psites_ticks ts : forall cur, psites (ticks_prog c cur ts) = ticks_sites c cur ts.
@@ -143,7 +202,7 @@ Proof.
   induction ts as [|t r IH]; intros cur; cbn [ticks_prog ticks_sites]; [reflexivity|].
   destruct (tick_prog_sites cur t) as [H1 H2].
   destruct (tick_prog c cur t) as [cur' p]. destruct (tick_sites c cur t) as [cur'' s]. cbn [fst snd] in *. subst.
-  destruct t; [cbn [psites]; rewrite IH; reflexivity | reflexivity].
+  destruct t; [cbn [psites]; rewrite IH; reflexivity | reflexivity | cbn [psites]; rewrite IH; reflexivity].
 Qed.
 
 Theorem psites_robot ts : psites (robot_prog c ts) = spec_sites c ts.
@@ -157,28 +216,48 @@ Variable fbval : nat -> Z.
 Notation denote := (denote c raises writes fbval).
 Notation robot_run := (robot_run c raises writes fbval).
 
+Lemma nofms_or_keep p : forall w, no_env p = true -> forall v, w_fms w = v -> w_fms (fst (denote p w)) = v.
+Proof.
+  induction p as [| s | j | | m | b0 | q IH | a IHa b IHb]; intros w Hn v Hv; cbn [Model.denote];
+    destruct (in_flight w) eqn:Hw; cbn [fst]; auto; try discriminate.
+  - pose proof (invoke_spec c raises writes s w) as Hi. destruct (Model.invoke c raises writes s w) as [w1 e].
+    cbn [fst]. destruct Hi as (_ & _ & _ & _ & _ & _ & _ & H8). congruence.
+  - pose proof (invoke_spec c raises writes (SFeedback j) w) as Hi.
+    destruct (Model.invoke c raises writes (SFeedback j) w) as [w1 e]. destruct Hi as (_ & _ & _ & _ & _ & _ & _ & H8).
+    destruct (in_flight w1); cbn [fst]; [destruct (handle_frame w1) as (_ & _ & _ & _ & Hh); congruence | cbn; congruence].
+  - cbn [no_env] in Hn. specialize (IH w Hn v Hv). destruct (denote q w) as [w1 e]. cbn [fst] in *.
+    destruct (handle_frame w1) as (_ & _ & _ & _ & Hh). congruence.
+  - cbn [no_env] in Hn. apply andb_true_iff in Hn. destruct Hn as [Ha Hb].
+    specialize (IHa w Ha v Hv). destruct (denote a w) as [w1 e1]. cbn [fst] in IHa.
+    specialize (IHb w1 Hb v IHa). destruct (denote b w1) as [w2 e2]. exact IHb.
+Qed.
+
 Definition setup_quiet : Prop := forall k, (k < length (startup_sites c))%nat -> raises k = false.
 
 (* C05/C07: with the FMS attached the robot makes exactly the calls of the
    specification, in order, whatever raises (outside setup()), and keeps running *)
-Theorem run_fms ts : fms c = true -> setup_quiet ->
+Theorem run_fms ts : fms c = true -> fms_ticks_stay true ts = true -> setup_quiet ->
   sites (snd (robot_run ts)) = spec_sites c ts /\ in_flight (fst (robot_run ts)) = false.
 Proof.
-  intros Hf Hq. unfold Model.robot_run, robot_prog. cbn [Model.denote].
+  intros Hf Hts Hq. unfold Model.robot_run, robot_prog. cbn [Model.denote].
   change (in_flight (init_world c)) with false. cbv iota.
   pose proof (quiet_total c raises writes fbval (startup c) (init_world c) eq_refl) as Hs.
   rewrite psites_startup in Hs. specialize (Hs Hq).
-  destruct (denote (startup c) (init_world c)) as [w1 e1]. destruct Hs as (S1 & S2 & S3).
-  pose proof (safe_total c raises writes fbval (ticks_prog c None ts) Hf (safe_ticks ts None) w1 S1) as Ht.
-  destruct (denote (ticks_prog c None ts) w1) as [w2 e2]. destruct Ht as (T1 & T2 & T3).
+  pose proof (safe_total c (fun _ => false) writes fbval (startup c)) as Hkeep.
+  assert (Hfm : w_fms (fst (denote (startup c) (init_world c))) = true).
+  { clear Hs. pose proof (nofms_or_keep (startup c) (init_world c)) as K. apply K; [apply no_env_startup | exact Hf]. }
+  destruct (denote (startup c) (init_world c)) as [w1 e1]. destruct Hs as (S1 & S2 & S3). cbn [fst] in Hfm.
+  pose proof (safe_total c raises writes fbval (ticks_prog c None ts) (safe_ticks ts None)
+                (fms_stays_ticks true ts None Hts) w1 S1 Hfm) as Ht.
+  destruct (denote (ticks_prog c None ts) w1) as [w2 e2]. destruct Ht as (T1 & T2 & T3 & _).
   cbn [fst snd]. rewrite sites_app, S2, T2, psites_ticks. split; [reflexivity | exact T1].
 Qed.
 
 (* ... so the calls made do not depend on which callbacks raise *)
-Corollary run_fms_independent_of_faults ts : fms c = true -> setup_quiet ->
+Corollary run_fms_independent_of_faults ts : fms c = true -> fms_ticks_stay true ts = true -> setup_quiet ->
   sites (snd (robot_run ts)) = sites (snd (Model.robot_run c (fun _ => false) writes fbval ts)).
 Proof.
-  intros Hf Hq. rewrite (proj1 (run_fms ts Hf Hq)). symmetry.
+  intros Hf Hts Hq. rewrite (proj1 (run_fms ts Hf Hts Hq)). symmetry.
   unfold Model.robot_run.
   pose proof (quiet_total c (fun _ => false) writes fbval (robot_prog c ts) (init_world c) eq_refl (fun _ _ => eq_refl)) as H.
   destruct (Model.denote c (fun _ => false) writes fbval (robot_prog c ts) (init_world c)) as [w e].
@@ -187,41 +266,43 @@ Qed.
 
 (* C07: without the FMS the first raising callback is the last one: the exception
    propagates out of the robot program *)
-Theorem run_nofms ts : fms c = false ->
+Theorem run_nofms ts : fms c = false -> fms_ticks_stay false ts = true ->
   match first_raise raises 0 (length (spec_sites c ts)) with
   | Some i => sites (snd (robot_run ts)) = firstn (S i) (spec_sites c ts) /\ in_flight (fst (robot_run ts)) = true
   | None => sites (snd (robot_run ts)) = spec_sites c ts /\ in_flight (fst (robot_run ts)) = false
   end.
 Proof.
-  intros Hf. unfold Model.robot_run.
-  pose proof (nofms_cut c raises writes fbval (robot_prog c ts) Hf (init_world c) eq_refl) as H.
+  intros Hf Hts. unfold Model.robot_run.
+  assert (Hst : fms_stays false (robot_prog c ts) = true).
+  { unfold robot_prog. cbn [fms_stays]. rewrite (no_env_stays false _ no_env_startup), fms_stays_ticks; auto. }
+  pose proof (nofms_cut c raises writes fbval (robot_prog c ts) Hst (init_world c) eq_refl Hf) as H.
   destruct (denote (robot_prog c ts) (init_world c)) as [w e]. rewrite psites_robot in H. cbn [fst snd].
-  change (w_n (init_world c)) with 0%nat in H.
+  change (w_n (init_world c)) with 0%nat in H. destruct H as [_ H].
   destruct (first_raise raises 0 (length (spec_sites c ts))); tauto.
 Qed.
 
 (* ------------------------------------------------------------------ *)
 (* C11: feedback publication                                            *)
-Lemma feedback_step j w : in_flight w = false -> fms c = true ->
+Lemma feedback_step j w : in_flight w = false -> w_fms w = true ->
   let '(w', e) := denote (PFeedback j) w in
-  in_flight w' = false /\ w_n w' = S (w_n w) /\ w_ntmode w' = w_ntmode w /\
+  in_flight w' = false /\ w_fms w' = true /\ w_n w' = S (w_n w) /\ w_ntmode w' = w_ntmode w /\
   w_nt w' = (if raises (w_n w) then w_nt w else updn (w_nt w) j (Some (fbval (w_n w)))).
 Proof.
   intros Hw Hf. cbn [Model.denote]. rewrite Hw.
   pose proof (invoke_spec c raises writes (SFeedback j) w) as Hi.
   destruct (Model.invoke c raises writes (SFeedback j) w) as [w1 e].
-  destruct Hi as (H1 & H2 & H3 & H4 & H5 & H6 & H7).
+  destruct Hi as (H1 & H2 & H3 & H4 & H5 & H6 & H7 & H8).
   destruct (raises (w_n w)) eqn:E.
   - assert (E1 : in_flight w1 = true) by (unfold in_flight; rewrite (H6 eq_refl); reflexivity).
-    rewrite E1. destruct (handle_frame c w1) as (Hn & _ & Hnt & Hm).
-    rewrite handle_fms, Hn, Hnt, Hm by exact Hf. repeat split; auto; congruence.
+    rewrite E1. destruct (handle_frame w1) as (Hn & _ & Hnt & Hm & Hfm).
+    rewrite handle_fms, Hn, Hnt, Hm, Hfm by congruence. repeat split; auto; congruence.
   - assert (E1 : in_flight w1 = false) by (unfold in_flight in *; rewrite (H7 eq_refl); exact Hw).
-    rewrite E1. cbn. rewrite H3. repeat split; auto.
+    rewrite E1. cbn. rewrite H3. repeat split; auto; congruence.
 Qed.
 
 (* after the feedback phase of an iteration that started at invocation k0: entry j
    holds what getter j returned in this iteration, or is unchanged if it raised *)
-Lemma feedbacks_run n : forall a w, in_flight w = false -> fms c = true ->
+Lemma feedbacks_run n : forall a w, in_flight w = false -> w_fms w = true ->
   let '(w', e) := denote (pseq (map PFeedback (seq a n))) w in
   in_flight w' = false /\ w_n w' = (w_n w + n)%nat /\ w_ntmode w' = w_ntmode w /\
   forall j, w_nt w' j =
@@ -237,8 +318,8 @@ Proof.
   - cbn [seq map]. unfold pseq. cbn [fold_right]. fold (pseq (map PFeedback (seq (S a) n))).
     rewrite (denote_seq c raises writes fbval) by exact Hw.
     pose proof (feedback_step a w Hw Hf) as H1. destruct (denote (PFeedback a) w) as [w1 e1].
-    destruct H1 as (A1 & A2 & A3 & A4).
-    specialize (IH (S a) w1 A1 Hf). destruct (denote (pseq (map PFeedback (seq (S a) n))) w1) as [w2 e2].
+    destruct H1 as (A1 & A1f & A2 & A3 & A4).
+    specialize (IH (S a) w1 A1 A1f). destruct (denote (pseq (map PFeedback (seq (S a) n))) w1) as [w2 e2].
     destruct IH as (B1 & B2 & B3 & B4).
     split; [exact B1|]. split; [lia|]. split; [congruence|].
     intros j. rewrite B4, A4, A2.
@@ -261,18 +342,27 @@ Qed.
 
 (* ------------------------------------------------------------------ *)
 (* C10: the reset at the end of every enabled iteration                  *)
-Lemma enabled_periodic_resets w : fms c = true -> in_flight w = false ->
+
+(* framework code proper (no environment step): [safe_total] for it, keyed on the FMS state of
+   the world it starts in *)
+Lemma safe_fw p w : safe p = true -> no_env p = true -> in_flight w = false -> w_fms w = true ->
+  let '(w', e) := denote p w in
+  in_flight w' = false /\ sites e = psites p /\ w_n w' = (w_n w + length (psites p))%nat /\ w_fms w' = true.
+Proof. intros Hs Hn Hw Hf. apply safe_total; auto. apply no_env_stays, Hn. Qed.
+
+Lemma enabled_periodic_resets w : w_fms w = true -> in_flight w = false ->
   let '(w', e) := denote (enabled_periodic c) w in
   in_flight w' = false /\ exists st, w_store w' = reset_store c st.
 Proof.
   intros Hf Hw. unfold enabled_periodic, pseq. cbn [fold_right].
   rewrite (denote_seq c raises writes fbval) by exact Hw.
-  pose proof (safe_total c raises writes fbval _ Hf
-                (safe_for_components c _ (fun i => eq_refl : safe (PGuard (PInvoke (SExecute i))) = true)) w Hw) as H1.
+  pose proof (safe_fw _ w
+                (safe_for_components c _ (fun i => eq_refl : safe (PGuard (PInvoke (SExecute i))) = true))
+                (no_env_for_components c _ (fun i => eq_refl : no_env (PGuard (PInvoke (SExecute i))) = true)) Hw Hf) as H1.
   destruct (denote (for_components c (fun i => PGuard (PInvoke (SExecute i)))) w) as [w1 e1].
-  destruct H1 as (A1 & _).
+  destruct H1 as (A1 & _ & _ & A4).
   rewrite (denote_seq c raises writes fbval) by exact A1.
-  pose proof (safe_total c raises writes fbval _ Hf safe_do_periodics w1 A1) as H2.
+  pose proof (safe_fw _ w1 safe_do_periodics no_env_do_periodics A1 A4) as H2.
   destruct (denote (do_periodics c) w1) as [w2 e2]. destruct H2 as (B1 & _).
   rewrite (denote_seq c raises writes fbval) by exact B1.
   cbn [Model.denote]. rewrite B1.
@@ -286,62 +376,70 @@ Proof. intros H. unfold reset_store. rewrite H. reflexivity. Qed.
 
 Definition enabled_mode (m : mode) : bool := match m with Auto | Teleop => true | _ => false end.
 
-(* after every teleop/autonomous iteration -- also when callbacks of it raised --
-   every will_reset_to attribute is back at its declared default *)
-Theorem iteration_resets m w : fms c = true -> enabled_mode m = true -> in_flight w = false ->
+(* after every teleop/autonomous iteration that starts with the FMS attached -- also when
+   callbacks of it raised -- every will_reset_to attribute is back at its declared default *)
+Theorem iteration_resets m w : w_fms w = true -> enabled_mode m = true -> in_flight w = false ->
   let '(w', e) := denote (iteration c m) w in
   in_flight w' = false /\ forall ci a d, marked c ci a = Some d -> w_store w' ci a = d.
 Proof.
   intros Hf Hm Hw. destruct m; try discriminate; unfold iteration, pseq; cbn [fold_right].
   - (* Auto *)
     rewrite (denote_seq c raises writes fbval) by exact Hw.
-    pose proof (safe_total c raises writes fbval (pwhen (has_auto c) (PGuard (PInvoke SAutoIter))) Hf
-                  (safe_pwhen _ (PGuard (PInvoke SAutoIter)) eq_refl) w Hw) as H1.
-    destruct (denote (pwhen (has_auto c) (PGuard (PInvoke SAutoIter))) w) as [w1 e1]. destruct H1 as (A1 & _).
+    pose proof (safe_fw (pwhen (has_auto c) (PGuard (PInvoke SAutoIter))) w
+                  (safe_pwhen _ (PGuard (PInvoke SAutoIter)) eq_refl)
+                  (no_env_pwhen _ (PGuard (PInvoke SAutoIter)) eq_refl) Hw Hf) as H1.
+    destruct (denote (pwhen (has_auto c) (PGuard (PInvoke SAutoIter))) w) as [w1 e1]. destruct H1 as (A1 & _ & _ & A4).
     rewrite (denote_seq c raises writes fbval) by exact A1.
-    pose proof (safe_total c raises writes fbval (pwhen (teleop_in_auto c) (PGuard (PInvoke (SPeriodic Teleop)))) Hf
-                  (safe_pwhen _ (PGuard (PInvoke (SPeriodic Teleop))) eq_refl) w1 A1) as H2.
-    destruct (denote (pwhen (teleop_in_auto c) (PGuard (PInvoke (SPeriodic Teleop)))) w1) as [w2 e2]. destruct H2 as (B1 & _).
+    pose proof (safe_fw (pwhen (teleop_in_auto c) (PGuard (PInvoke (SPeriodic Teleop)))) w1
+                  (safe_pwhen _ (PGuard (PInvoke (SPeriodic Teleop))) eq_refl)
+                  (no_env_pwhen _ (PGuard (PInvoke (SPeriodic Teleop))) eq_refl) A1 A4) as H2.
+    destruct (denote (pwhen (teleop_in_auto c) (PGuard (PInvoke (SPeriodic Teleop)))) w1) as [w2 e2]. destruct H2 as (B1 & _ & _ & B4).
     rewrite (denote_seq c raises writes fbval) by exact B1.
     cbn [Model.denote]. rewrite B1.
-    pose proof (enabled_periodic_resets w2 Hf B1) as H3.
+    pose proof (enabled_periodic_resets w2 B4 B1) as H3.
     destruct (denote (enabled_periodic c) w2) as [w3 e3]. destruct H3 as (C1 & st & C2).
     rewrite handle_quiet by exact C1. rewrite C1. cbn. split; [exact C1|].
     intros ci a d Hd. rewrite C2. apply reset_store_marked, Hd.
   - (* Teleop *)
     rewrite (denote_seq c raises writes fbval) by exact Hw.
-    pose proof (safe_total c raises writes fbval (PGuard (PInvoke (SPeriodic Teleop))) Hf eq_refl w Hw) as H1.
-    destruct (denote (PGuard (PInvoke (SPeriodic Teleop))) w) as [w1 e1]. destruct H1 as (A1 & _).
+    pose proof (safe_fw (PGuard (PInvoke (SPeriodic Teleop))) w eq_refl eq_refl Hw Hf) as H1.
+    destruct (denote (PGuard (PInvoke (SPeriodic Teleop))) w) as [w1 e1]. destruct H1 as (A1 & _ & _ & A4).
     rewrite (denote_seq c raises writes fbval) by exact A1.
-    pose proof (enabled_periodic_resets w1 Hf A1) as H3.
+    pose proof (enabled_periodic_resets w1 A4 A1) as H3.
     destruct (denote (enabled_periodic c) w1) as [w3 e3]. destruct H3 as (C1 & st & C2).
     cbn [Model.denote]. rewrite C1. cbn. split; [exact C1|].
     intros ci a d Hd. rewrite C2. apply reset_store_marked, Hd.
 Qed.
 
-(* the same without the FMS, for a pass in which no callback raises *)
+(* the same for a pass that is calm: the FMS is attached, OR no callback of the pass raises *)
 Definition calm (p : prog) (w : world) : Prop :=
-  (fms c = true /\ safe p = true) \/
-  (forall i, (i < length (psites p))%nat -> raises (w_n w + i) = false).
+  no_env p = true /\
+  ((w_fms w = true /\ safe p = true) \/
+   (forall i, (i < length (psites p))%nat -> raises (w_n w + i) = false)).
 
 Lemma calm_total p w : calm p w -> in_flight w = false ->
   let '(w', e) := denote p w in
-  in_flight w' = false /\ sites e = psites p /\ w_n w' = (w_n w + length (psites p))%nat.
+  in_flight w' = false /\ sites e = psites p /\ w_n w' = (w_n w + length (psites p))%nat /\ w_fms w' = w_fms w.
 Proof.
-  intros [[Hf Hs]|Hq] Hw; [apply safe_total; assumption | apply quiet_total; assumption].
+  intros [Hn Hc] Hw. pose proof (nofms_or_keep p w Hn _ eq_refl) as Hk.
+  destruct Hc as [[Hf Hs]|Hq].
+  - pose proof (safe_fw p w Hs Hn Hw Hf) as H. destruct (denote p w) as [w' e]. cbn [fst] in Hk. tauto.
+  - pose proof (quiet_total c raises writes fbval p w Hw Hq) as H. destruct (denote p w) as [w' e]. cbn [fst] in Hk. tauto.
 Qed.
 
 Lemma calm_seq_l a b w : calm (PSeq a b) w -> calm a w.
 Proof.
-  intros [[Hf Hs]|Hq]; [left | right].
+  intros [Hn Hc]. cbn [no_env] in Hn. apply andb_true_iff in Hn. split; [tauto|].
+  destruct Hc as [[Hf Hs]|Hq]; [left | right].
   - cbn [safe] in Hs. apply andb_true_iff in Hs. tauto.
   - intros i Hi. apply Hq. cbn [psites]. rewrite app_length. lia.
 Qed.
-Lemma calm_seq_r a b w w1 : calm (PSeq a b) w -> w_n w1 = (w_n w + length (psites a))%nat -> calm b w1.
+Lemma calm_seq_r a b w w1 : calm (PSeq a b) w -> w_n w1 = (w_n w + length (psites a))%nat -> w_fms w1 = w_fms w -> calm b w1.
 Proof.
-  intros [[Hf Hs]|Hq] Hn; [left | right].
-  - cbn [safe] in Hs. apply andb_true_iff in Hs. tauto.
-  - intros i Hi. rewrite Hn, <- Nat.add_assoc. apply Hq. cbn [psites]. rewrite app_length. lia.
+  intros [Hn Hc] Hnn Hfm. cbn [no_env] in Hn. apply andb_true_iff in Hn. split; [tauto|].
+  destruct Hc as [[Hf Hs]|Hq]; [left | right].
+  - cbn [safe] in Hs. apply andb_true_iff in Hs. split; [congruence | tauto].
+  - intros i Hi. rewrite Hnn, <- Nat.add_assoc. apply Hq. cbn [psites]. rewrite app_length. lia.
 Qed.
 
 Lemma enabled_periodic_resets_calm w : calm (enabled_periodic c) w -> in_flight w = false ->
@@ -352,8 +450,8 @@ Proof.
   rewrite (denote_seq c raises writes fbval) by exact Hw.
   pose proof (calm_total _ w (calm_seq_l _ _ _ Hc) Hw) as H1.
   destruct (denote (for_components c (fun i => PGuard (PInvoke (SExecute i)))) w) as [w1 e1].
-  destruct H1 as (A1 & _ & A3).
-  pose proof (calm_seq_r _ _ w w1 Hc A3) as Hc2.
+  destruct H1 as (A1 & _ & A3 & A4).
+  pose proof (calm_seq_r _ _ w w1 Hc A3 A4) as Hc2.
   rewrite (denote_seq c raises writes fbval) by exact A1.
   pose proof (calm_total _ w1 (calm_seq_l _ _ _ Hc2) A1) as H2.
   destruct (denote (do_periodics c) w1) as [w2 e2]. destruct H2 as (B1 & _).
@@ -361,10 +459,6 @@ Proof.
   cbn [Model.denote]. rewrite B1.
   destruct (in_flight (do_reset c w2)); cbn; (split; [exact B1|]); exists (w_store w2); reflexivity.
 Qed.
-
-Lemma calm_guard q w : calm (PGuard q) w -> safe q = true \/ (forall i, (i < length (psites q))%nat -> raises (w_n w + i) = false) ->
-  calm q w.
-Proof. intros [[Hf Hs]|Hq] [H|H]; [left; auto | right; exact H | right; exact Hq | right; exact H]. Qed.
 
 Theorem iteration_resets_calm m w : calm (iteration c m) w -> enabled_mode m = true -> in_flight w = false ->
   let '(w', e) := denote (iteration c m) w in
@@ -374,16 +468,17 @@ Proof.
   - (* Auto *)
     rewrite (denote_seq c raises writes fbval) by exact Hw.
     pose proof (calm_total _ w (calm_seq_l _ _ _ Hc) Hw) as H1.
-    destruct (denote (pwhen (has_auto c) (PGuard (PInvoke SAutoIter))) w) as [w1 e1]. destruct H1 as (A1 & _ & A3).
-    pose proof (calm_seq_r _ _ w w1 Hc A3) as Hc2.
+    destruct (denote (pwhen (has_auto c) (PGuard (PInvoke SAutoIter))) w) as [w1 e1]. destruct H1 as (A1 & _ & A3 & A4).
+    pose proof (calm_seq_r _ _ w w1 Hc A3 A4) as Hc2.
     rewrite (denote_seq c raises writes fbval) by exact A1.
     pose proof (calm_total _ w1 (calm_seq_l _ _ _ Hc2) A1) as H2.
-    destruct (denote (pwhen (teleop_in_auto c) (PGuard (PInvoke (SPeriodic Teleop)))) w1) as [w2 e2]. destruct H2 as (B1 & _ & B3).
-    pose proof (calm_seq_r _ _ w1 w2 Hc2 B3) as Hc3.
+    destruct (denote (pwhen (teleop_in_auto c) (PGuard (PInvoke (SPeriodic Teleop)))) w1) as [w2 e2]. destruct H2 as (B1 & _ & B3 & B4).
+    pose proof (calm_seq_r _ _ w1 w2 Hc2 B3 B4) as Hc3.
     rewrite (denote_seq c raises writes fbval) by exact B1.
     apply calm_seq_l in Hc3.
     assert (Hc4 : calm (enabled_periodic c) w2).
-    { destruct Hc3 as [[Hf _]|Hq]; [left; split; [exact Hf | apply safe_enabled_periodic] | right; exact Hq]. }
+    { destruct Hc3 as [Hn3 [[Hf _]|Hq]]; (split; [exact Hn3|]);
+        [left; split; [exact Hf | apply safe_enabled_periodic] | right; exact Hq]. }
     cbn [Model.denote]. rewrite B1.
     pose proof (enabled_periodic_resets_calm w2 Hc4 B1) as H3.
     destruct (denote (enabled_periodic c) w2) as [w3 e3]. destruct H3 as (C1 & st & C2).
@@ -392,13 +487,21 @@ Proof.
   - (* Teleop *)
     rewrite (denote_seq c raises writes fbval) by exact Hw.
     pose proof (calm_total _ w (calm_seq_l _ _ _ Hc) Hw) as H1.
-    destruct (denote (PGuard (PInvoke (SPeriodic Teleop))) w) as [w1 e1]. destruct H1 as (A1 & _ & A3).
-    pose proof (calm_seq_r _ _ w w1 Hc A3) as Hc2.
+    destruct (denote (PGuard (PInvoke (SPeriodic Teleop))) w) as [w1 e1]. destruct H1 as (A1 & _ & A3 & A4).
+    pose proof (calm_seq_r _ _ w w1 Hc A3 A4) as Hc2.
     rewrite (denote_seq c raises writes fbval) by exact A1.
     pose proof (enabled_periodic_resets_calm w1 (calm_seq_l _ _ _ Hc2) A1) as H3.
     destruct (denote (enabled_periodic c) w1) as [w3 e3]. destruct H3 as (C1 & st & C2).
     cbn [Model.denote]. rewrite C1. cbn. split; [exact C1|].
     intros ci a d Hd. rewrite C2. apply reset_store_marked, Hd.
+Qed.
+
+(* every iteration program is framework code proper, so the [no_env] half of [calm] is free *)
+Lemma calm_iteration_intro m w :
+  (w_fms w = true \/ (forall i, (i < length (psites (iteration c m)))%nat -> raises (w_n w + i) = false)) ->
+  calm (iteration c m) w.
+Proof.
+  intros H. split; [apply no_env_iteration|]. destruct H as [H|H]; [left; split; [exact H | apply safe_iteration] | right; exact H].
 Qed.
 
 Lemma init_store_defaults ci a d : marked c ci a = Some d -> w_store (init_world c) ci a = d.
